@@ -666,7 +666,20 @@ def r4(ctx: Ctx) -> None:
         return t
 
     payloads = [_canon_payload(t) for t in payloads]
-    lossy = [t for t in payloads if t not in ("value", "str(value)", "value.isoformat()")]
+    # ('inf' / '-inf' for an infinite float under a math.isinf test: float() parses both back exactly)
+    has_isinf = any(isinstance(x, ast.Call) and (dotted(x.func) or "").split(".")[-1] == "isinf" for x in ast.walk(enc.node))
+    INF_FORMS = ("'inf' if value > 0 else '-inf'", "'-inf' if value < 0 else 'inf'")
+    lossy = [t for t in payloads if t not in ("value", "str(value)", "value.isoformat()") and not (has_isinf and t in INF_FORMS)]
+    # ... and it is the value ITSELF: the encoder does not re-bind its argument to something else first (a clamped / rounded /
+    # truncated copy); a zone conversion of an aware datetime names the same instant
+    pv = next((p_.name for p_ in enc.params if p_.name not in ("self", "cls")), "value")
+    for x in ast.walk(enc.node):
+        tg = x.targets if isinstance(x, ast.Assign) else ([x.target] if isinstance(x, (ast.AugAssign, ast.AnnAssign)) else [])
+        if any(isinstance(t_, ast.Name) and t_.id == pv for t_ in tg):
+            rhs = getattr(x, "value", None)
+            if isinstance(rhs, ast.Call) and isinstance(rhs.func, ast.Attribute) and rhs.func.attr == "astimezone" and norm_text(rhs.func.value) == pv:
+                continue
+            lossy.append(f"{pv} = {norm_text(rhs)[:60] if rhs is not None else '?'} (the bound is replaced before it is encoded)")
     ctx.ob("C13.R4", enc, "every bound is encoded losslessly", None, bool(payloads) and not lossy,
            ("payload expressions are value / value.isoformat() / str(value)" if not lossy else
             f"lossy payload expression(s) {lossy}: a rounded upper bound lies BELOW the file's real maximum, so files holding "
